@@ -152,7 +152,7 @@ def thmStats (cfg : Config) (body : List (List String)) : Nat × Nat × Nat × N
     handler sees New/Undo/Irreversible, all blocks fed in the case form a consistent universe (ids identify blocks,
     heights grow along parent links, also across the root), and every LIB declaration so far resolved to a stored
     ancestor carrying its real number -/
-def consistentCovered (cfg : Config) (body : List (List String)) : Nat × Nat :=
+def consistentCovered (cfg : Config) (body : List (List String)) : Nat × Nat × Nat :=
   let handlerSees := cfg.matches .new && cfg.matches .undo && cfg.matches .irreversible
   let blks := (body.filterMap parseBlkOp).map (·.1)
   let u := blks.eraseDups
@@ -169,11 +169,14 @@ def consistentCovered (cfg : Config) (body : List (List String)) : Nat × Nat :=
   match cfg.root with
   | some (.exclusive r) =>
     let rootOK := u.all (fun b => (!(b.parent == r.id) || decide (r.num < b.num)) && (!(b.id == r.id) || b.num == r.num))
-    if handlerSees && r.id != "" && uokB u && rootOK then (count, 0) else (0, 0)
+    if handlerSees && r.id != "" && uokB u && rootOK then (count, 0, 0) else (0, 0, 0)
   | none =>
     -- hold-until-LIB discovery (the hub's configuration): `history_discipline_discovery`
-    if handlerSees && cfg.hold && uokB u then (0, count) else (0, 0)
-  | _ => (0, 0)
+    if handlerSees && cfg.hold && uokB u then (0, count, 0) else (0, 0, 0)
+  | some (.inclusive r) =>
+    -- `history_discipline_inclusive`
+    let rootOK := u.all (fun b => (!(b.parent == r.id) || decide (r.num < b.num)) && (!(b.id == r.id) || b.num == r.num))
+    if handlerSees && r.id != "" && uokB u && rootOK then (0, 0, count) else (0, 0, 0)
 
 open BstreamVerif.Consumer in
 def parseObs (ws : List String) : Option Obs :=
@@ -270,6 +273,7 @@ def handle (hdr : List String) (body : List (List String)) : List String :=
        [s!"note stat thm.steps {n}", s!"note stat thm.steps_in_scope {sc}", s!"note stat thm.steps_all_hypotheses_hold {ok}",
         s!"note stat thm.steps_covered_by_history_theorem {cov}",
         s!"note stat thm.steps_covered_by_consistent_history_theorem {(consistentCovered cfg body).1}",
-        s!"note stat thm.steps_covered_by_discovery_history_theorem {(consistentCovered cfg body).2}"])
+        s!"note stat thm.steps_covered_by_discovery_history_theorem {(consistentCovered cfg body).2.1}",
+        s!"note stat thm.steps_covered_by_inclusive_history_theorem {(consistentCovered cfg body).2.2}"])
 
 end BstreamVerif.Drv.ForkableDrv
